@@ -13,6 +13,16 @@ def e2e_oracle(chk, r):
     if r["resim_max"] > lim["max_eft"] + TOL or r["resim_min"] < lim["min_eft"] - TOL:
         chk.violation("end-to-end", r["cfg"], {"nbh": r["nbh"], "H": r["H"], "max_eft": r["resim_max"], "min_eft": r["resim_min"]},
                       f"max EFT <= {lim['max_eft']}+1e-3 and min EFT >= {lim['min_eft']}-1e-3 at the returned field and height")
+    # the same field and height simulated from the REQUESTED inputs through the low-level classes only (nothing of the manager / search reused)
+    ref = r.get("reference")
+    dz = r["cfg"]["design"]
+    if ref is not None:
+        if ref["max"] > dz["max_eft"] + TOL or ref["min"] < dz["min_eft"] - TOL:
+            chk.violation("end-to-end", r["cfg"], {"nbh": r["nbh"], "H": r["H"], "max_eft_from_requested_inputs": ref["max"], "min_eft_from_requested_inputs": ref["min"],
+                                                    "on_the_returned_object": [r["resim_max"], r["resim_min"]]},
+                          f"simulating the returned field at the returned height with the requested fluid / pipe / soil / grout / loads / horizon keeps the EFT within [{dz['min_eft']}, {dz['max_eft']}] +- 1e-3")
+    elif "reference_error" in r:
+        chk.broken.append({"name": "reference simulation from the requested inputs failed", "detail": r["reference_error"]})
     # the design was simulated over the horizon that was asked for (hybrid axis ends at the last hour of the requested month)
     want_m = r["cfg"]["simulation"]["num_months"]
     cum = [0, 744, 1416, 2160, 2880, 3624, 4344, 5088, 5832, 6552, 7296, 8016, 8760]
@@ -30,6 +40,14 @@ def configs(tier):
           cfg("BIZONEDRECTANGLE", flow=("SYSTEM", 3.0)),
           cfg("ROWWISE", loads={"kind": "balanced", "scale": 60000, "seed": 4}),
           cfg("BIRECTANGLECONSTRAINED", "DOUBLEUTUBESERIES"), steep_cfg(1950.0, 3), steep_cfg(2150.0, 3)]
+    # values a setter or loader could lose or swap on the way in: a design fluid temperature other than 20 C, antifreeze, different inner / outer conductivities
+    cold = cfg(months=12, loads={"kind": "heating", "scale": 22000, "seed": 3}, flow=("BOREHOLE", 0.13))
+    cold["fluid"] = {"fluid_name": "WATER", "concentration_percent": 0.0, "temperature": 4}
+    glyc = cfg("RECTANGLE", months=12, loads={"kind": "heating", "scale": 24000, "seed": 5}, flow=("BOREHOLE", 0.3), design={"min_eft": -2.0})
+    glyc["fluid"] = {"fluid_name": "PROPYLENEGLYCOL", "concentration_percent": 25.0, "temperature": 2}
+    coax = cfg("RECTANGLE", "COAXIAL", months=12, loads={"kind": "cooling", "scale": 30000, "seed": 6}, flow=("SYSTEM", 2.0))
+    coax["pipe"]["conductivity_inner"], coax["pipe"]["conductivity_outer"] = 0.42, 0.17
+    cs += [cold, glyc, coax]
     reused = cfg("RECTANGLE", months=36, loads={"kind": "cooling", "scale": 30000, "seed": 8})
     reused["_first_configured_with"] = {"simulation": {"num_months": 12}, "design": {"max_eft": 30.0}}      # the manager did another study first
     cs.append(reused)
